@@ -44,17 +44,18 @@ def _cases(tier):
     # two positions (a, b) holding similar objects that merge; their field f varies in kind and presence
     nv = []
     for key in ("a", "b"):
-        for v in ([1], [1.5], "n/a", 1, 1.5, None, "<absent>", "7"):
+        for v in ([1], [1.5], "n/a", 1, 1.5, None, "<absent>"):
             o = {"p": 1, "q": 2, "r": 3, "s": 4}
             if v != "<absent>":
                 o["f"] = v
             nv.append(["J", {key: o}])
     for merge in merges:
-        for n in range(1, 4):
+        for n in range(1, 5):
             for S in itertools.combinations(nv, n):
-                if n == 3 and len({list(x[1])[0] for x in S}) < 2:
+                if n >= 3 and len({list(x[1])[0] for x in S}) < 2:
                     continue
-                yield {"set": list(S), "L": 3, "merge": merge}
+                # four distinct samples: all 24 orders (an Optional union at one position needs three of them)
+                yield {"set": list(S), "L": max(3, n), "merge": merge}
     gs = [["G", g] for g in GRAPH_OBJS]
     for merge in merges:
         for n in range(1, gL + 1):
